@@ -24,8 +24,56 @@ NOT_APPLICABLE = {
 PENDING = "check not built yet (work in progress in this session; see DESIGN.md for the planned harnesses)"
 
 LEVEL_TEXT = {
+    "C01": "bounded, solver-decided: (1) SMT path enumeration (z3) of the programs the real compile pipeline produces for a "
+           "corpus of patterns with choice points, lookarounds, backreferences and case-insensitivity, against an ES "
+           "reference matcher, for every haystack of each enumerated shape (<= 3-4 characters, byte values symbolic); "
+           "(2) Kani/CBMC on the real executor for straight-line programs over <= 2-3 symbolic characters; (3) Kani "
+           "kernels for the real loop decision, one-character loops, backtrack records and lookaround capture effects. "
+           "Not a proof: outside the corpus and the bounds nothing is claimed.",
+    "C02": "Kani/CBMC kernels tie BOTH real executors' step functions (loop decision, one-character loop step, undo "
+           "records, lookaround capture effects, iteration) to one specification; whole-executor agreement is explored "
+           "natively on one solver-produced witness per feasible path of the bytecode machine (solver-guided, not "
+           "all-inputs).",
+    "C03": "translation validation decided by an SMT solver: for each corpus pattern the optimised and unoptimised programs "
+           "emitted by the real pipeline are executed on every haystack of the enumerated shapes (byte values symbolic) and "
+           "must agree on match range and all captures; counterexamples are replayed on the real engine.",
+    "C04": "SMT-decided equivalence, per corpus pattern, of the search with the start predicate derived by the real "
+           "analysis and the search that attempts every offset; plus Kani/CBMC verification of the real byte kernels "
+           "(lead-byte computation, first-byte bitmap, align_to bitmap scan, small sets) for all inputs within bounds.",
+    "C05": "bounded termination on the bytecode machine (transcription of the real interpreter, validated natively each "
+           "run): no haystack of <= 3 characters drives any program of the nested-quantifier family beyond the step "
+           "budget; suspected divergences are confirmed on the real engine under a time limit.",
+    "C06": "Kani/CBMC on the real unsafe code in the default (pointer-position, unchecked) build: every dereference, "
+           "offset, slice construction and unreachable_unchecked reached is checked for all haystacks within the bound; "
+           "decoders are also compared with the UTF-8 definition.",
+    "C09": "Kani/CBMC on the real iterator and search loops of both executors over an ARBITRARY deterministic engine "
+           "(symbolic result table), all haystacks <= 2 (quick) / 3 (thorough) characters, all start offsets.",
+    "C10": "Kani/CBMC: the real fold / legacy upper-case table lookups for EVERY code point against independent oracles; "
+           "the real compile-time expansion of /c/ and /[c]/ for every character with a non-trivial class (rows dumped "
+           "natively, row lemma decided symbolically); case-insensitive backreference kernel; plus SMT-decided engine "
+           "behaviour for a corpus of case-insensitive patterns.",
+    "C11": "Kani/CBMC: for each property name the table the real dispatcher returns is compared with an independent table "
+           "for a symbolic code point (all code points); exact for six std-backed properties, Unicode-16-relative for the "
+           "rest; the parser path is compared with the dispatcher natively for every name.",
+    "C12": "Kani/CBMC on the real interval-set algebra from arbitrary well-formed pre-states and on the ASCII bracket fast "
+           "path; SMT-decided comparison of compiled class expressions (legacy and v-mode, generated to depth 2 with "
+           "independently computed denotations) with ES semantics for all subjects within the shapes.",
+    "C13": "Kani/CBMC: AsciiInput vs Utf8Input primitives and fold relation on all ASCII bytes; one-character loops and the "
+           "Char arm with non-byte pattern characters on AsciiInput; SMT comparison of the machine in ASCII and UTF-8 "
+           "mode on ASCII shapes with native validation against find_from_ascii.",
+    "C14": "Kani/CBMC on the real Utf16Input / Ucs2Input decoders and backreference primitive for arbitrary u16 input "
+           "(lone surrogates included) within the bound.",
+    "C15": "the same Kani harness files are verified under the other feature sets against the same oracles; compile "
+           "verdicts and compiled programs of a pattern corpus are compared natively across feature sets.",
     "C16": "bounded model checking (Kani/CBMC) of the real Match accessors over every capture vector of <=3 slots and "
-           "every name assignment over {unnamed,a,b}; all inputs within the bound are decided by the SAT solver",
+           "the name assignments over {unnamed,a,b} incl. duplicates; group-name order of the real emitter checked on a "
+           "corpus of named-group patterns.",
+    "C17": "Kani/CBMC: the real template expander against a reference expander for all templates of <= 2 (quick) / 3-4 "
+           "(thorough) symbols over a 9-symbol alphabet; the real splice loops over an arbitrary deterministic engine.",
+    "C18": "Kani/CBMC: escape(s) for every string of <= 2 scalar values equals 'backslash before exactly the 14 syntax "
+           "characters'.",
+    "C20": "Kani/CBMC on the real Searcher / ReverseSearcher implementation over an arbitrary deterministic engine for all "
+           "haystacks of <= 2 characters: adjacency, coverage, boundaries, Match steps == find_iter sequence.",
 }
 
 
